@@ -298,6 +298,12 @@ def run_property(prop, tier, seed, replay=None):
                    "inconclusive": m["inconclusive"][:5],
                    "notes": m["notes"][:8]}
             for name, m in sorted(subs.items())},
+        "violation_examples": [
+            {"cls": (v["case"].get("cls") or ["?"])[0] if isinstance(v["case"], dict) else "?",
+             "case": json.loads(json.dumps(v["case"], default=str))
+             if len(json.dumps(v["case"], default=str)) < 1500 else str(v["case"])[:1500],
+             "expected": str(v.get("expected"))[:300], "actual": str(v.get("actual"))[:300]}
+            for v in new[:80]],
         "known_findings_reproduced": [l for l in known_lines],
         "known_finding_hits_in_search": {k: len(v) for k, v in known_hit.items()},
         "new_violation_replays": paths,
